@@ -84,13 +84,19 @@ where
                 let (io, peer) = simnet::pair();
                 peer.0.borrow_mut().id = c.id;
                 let conn = svc.call((io, Protocol::Http1, None));
-                let conn_task = tokio::task::spawn_local(async move { conn.await.map_err(|e| format!("{e}")) });
+                let conn_task = tokio::task::spawn_local(async move {
+                    match crate::util::PollBudget::new(conn, crate::util::SPIN_LIMIT).await {
+                        Ok(r) => r.map_err(|e| format!("{e}")),
+                        Err(spin) => Err(spin),
+                    }
+                });
                 let ppeer = peer.clone();
                 let input = Bytes::from(c.input);
                 let peer_task = tokio::task::spawn_local(simnet::run_peer(ppeer, input, c.peer_ops, c.is_head));
                 let res = tokio::time::timeout(Duration::from_millis(deadline_ms), conn_task).await;
                 let end = match res {
                     Ok(Ok(Ok(()))) => ConnEnd::Ok,
+                    Ok(Ok(Err(e))) if e.starts_with("SPIN:") => ConnEnd::Stalled,
                     Ok(Ok(Err(e))) => ConnEnd::Err(e),
                     Ok(Err(j)) => {
                         if j.is_panic() {
